@@ -1,0 +1,78 @@
+//go:build verif
+
+package client
+
+import (
+	"time"
+
+	"github.com/plgd-dev/go-coap/v3/pkg/cache"
+)
+
+// Read-only introspection (and deadline shifting) for the verification harness
+// (/verif). Compiled only with -tags verif.
+
+// VerifSizes returns the sizes of the per-exchange tables of the connection.
+func (cc *Conn) VerifSizes() map[string]int {
+	r := map[string]int{
+		"tokenHandlers": cc.tokenHandlerContainer.Length(),
+		"midHandlers":   cc.midHandlerContainer.Length(),
+	}
+	cc.msgIDMutex.ml.Lock()
+	r["msgIDMutex"] = len(cc.msgIDMutex.ma)
+	cc.msgIDMutex.ml.Unlock()
+	if mc, ok := cc.responseMsgCache.(*messageCache); ok {
+		r["responseCache"] = mc.c.Length()
+	} else {
+		r["responseCache"] = -1
+	}
+	return r
+}
+
+// VerifShiftResponseCache moves the deadline of every cached reply d into the
+// past (as if d had elapsed) and returns the number of entries.
+func (cc *Conn) VerifShiftResponseCache(d time.Duration) int {
+	mc, ok := cc.responseMsgCache.(*messageCache)
+	if !ok {
+		return -1
+	}
+	n := 0
+	mc.c.Range(func(_ string, e *cache.Element[[]byte]) bool {
+		e.ValidUntil.Store(e.ValidUntil.Load().Add(-d))
+		n++
+		return true
+	})
+	return n
+}
+
+// VerifShiftPending moves start (and a non-zero deadline) of every pending
+// confirmable d into the past and returns the number of entries.
+func (cc *Conn) VerifShiftPending(d time.Duration) int {
+	n := 0
+	cc.midHandlerContainer.Range(func(_ int32, e *midElement) bool {
+		e.start = e.start.Add(-d)
+		if !e.deadline.IsZero() {
+			e.deadline = e.deadline.Add(-d)
+		}
+		n++
+		return true
+	})
+	return n
+}
+
+// VerifMsgID returns the connection's own message-ID counter.
+func (cc *Conn) VerifMsgID() uint32 {
+	return cc.msgID.Load()
+}
+
+// VerifBlockWise returns the block-wise layer of the connection (nil when disabled).
+func (cc *Conn) VerifBlockWise() interface{} {
+	if cc.blockWise == nil {
+		return nil
+	}
+	return cc.blockWise
+}
+
+// VerifObservationHandler returns the observation handler of the connection.
+func (cc *Conn) VerifObservationHandler() interface{} {
+	return cc.observationHandler
+}
